@@ -113,7 +113,13 @@ def c08():
                                             "file": file, "path": "/c", "mode": "a", "factor": k,
                                             "chunksize": cs, "nproc": nproc, "columns": None, "agg": None,
                                             "cli": False, "fault": None}
-    return [[src, co(2, 2)], [src, co(2, 100, 2)], [sh, co(3, 1)], [sh, co(2, 2, 3, "f1")], [sh, co(6, 3)]]
+    # the same URI coarsened twice by the same factor with a pool, over another table in between
+    # (anything keyed by URI/factor in the parent, or inherited at fork time, is stale)
+    fx = create("f0", "/s", L_FIXED, PX5)
+    again = [dict(co(2, 2, 2, "f1"), path="/c1"), sh, dict(co(2, 2, 2, "f1"), path="/c2"), fx,
+             dict(co(2, 1, 3, "f1"), path="/c3")]
+    return [[src, co(2, 2)], [src, co(2, 100, 2)], [sh, co(3, 1)], [sh, co(2, 2, 3, "f1")], [sh, co(6, 3)],
+            [src] + again]
 
 
 def c09():
@@ -121,7 +127,15 @@ def c09():
     z = lambda res, nproc=1: {"op": "zoomify", "file": "f2", "bases": [{"file": "f0", "path": "/"}],
                               "resolutions": res, "chunksize": 5, "nproc": nproc, "cli": False, "columns": None,
                               "as_list": True}
-    return [[anc, z([2, 3, 6])], [anc, z([6, 3, 2, 1], 3)], [anc, z([4, 12, 2], 2)], [anc, z([2, 5, 7])]]
+    # legacy layout: > 4 x 256 bins so that three zoom levels below the base exist (each must be
+    # the base coarsened by 2, 4, 8 - the chain 2 x 2 x 2)
+    wide = lay(["L1", "L2"], "uniform:700:3,uniform:600:3")
+    lpx = [(i, min(1299, i + (i * 7) % 11), 1 + i % 4) for i in range(0, 1300, 3)]
+    lsrc = create("f0", "/", wide, sorted(set(lpx)), form="df")
+    lz = lambda nproc, cli=False: {"op": "legacyzoom", "src": {"file": "f0", "path": "/"}, "chunksize": 150,
+                                   "nproc": nproc, "cli": cli}
+    return [[anc, z([2, 3, 6])], [anc, z([6, 3, 2, 1], 3)], [anc, z([4, 12, 2], 2)], [anc, z([2, 5, 7])],
+            [lsrc, lz(1), lz(2, True)]]
 
 
 def c15():
@@ -178,10 +192,13 @@ def c11():
 
 
 def c02(tier="quick"):
-    if tier != "thorough":
-        return []
-    # > 1e6 pixels: the real 1_000_000-row block boundary of index_pixels (knob off)
-    return [[{"op": "bigcreate", "file": "f0", "path": "/", "nbins": [1000, 500], "splits": [0.3, 0.3, 0.9]}]]
+    # > 1e6 pixels: the real 1_000_000-row block boundary of index_pixels (knob off; an index builder
+    # that no longer goes through rlencode is not reached by the knob). Cheap enough (2-3 s) for the
+    # quick tier; the thorough tier adds a second size whose boundary falls elsewhere.
+    big = [[{"op": "bigcreate", "file": "f0", "path": "/", "nbins": [1000, 500], "splits": [0.3, 0.3, 0.9]}]]
+    if tier == "thorough":
+        big.append([{"op": "bigcreate", "file": "f0", "path": "/b", "nbins": [700, 900, 450], "splits": [0.5]}])
+    return big
 
 
 DIRECTED = {"C02": c02, "C01": c01, "C06": c06, "C07": c07, "C08": c08, "C09": c09, "C11": c11, "C15": c15, "C17": c17,
